@@ -21,8 +21,8 @@ use std::sync::{Mutex, OnceLock};
 
 pub const META: Meta = Meta {
     level: "fault_enumeration",
-    rule: "per key type (ed25519, secp256k1, ecdsa, rsa-2048): signatures over 3 messages (empty, 1 byte, 64 bytes): every 1-bit flip / truncation / 1-byte extension of the message and every single-byte xor (8 one-bit masks quick, all 255 thorough) / truncation / extension of the signature, every other message, every other key; envelopes: 4 signing (domain,type) pairs x 7 domains x 6 payload types; every single-byte substitution (255 values; rsa/ecdsa/secp256k1: 8 one-bit masks + 0xff in quick), truncation and extension of the encoded peer-record envelope in legacy and interop format; structural peer-record cases (other signer, crossed domain/type, garbage peer id / address). Non-trivial = distinct mutated or mismatching cases (everything except the untouched baselines).",
-    explanation: "Fault enumeration (E3) on recorded artefacts. Oracle: verify is true exactly for the untouched (message, signature, key); payload_and_signing_key succeeds exactly for the signing (domain, type); a mutated envelope is rejected at decoding, at verification, or yields exactly the original record content; a record whose peer id is not the signer's is rejected; no panic.",
+    rule: "per key type (ed25519, secp256k1, ecdsa, rsa-2048): signatures over 3 messages (empty, 1 byte, 64 bytes): every 1-bit flip / truncation / 1-byte extension of the message and every single-byte xor (8 one-bit masks quick, all 255 thorough) / truncation / extension of the signature, every other message, every other key; envelopes: 4 signing (domain,type) pairs x 7 domains x 6 payload types; every single-byte substitution (255 values; rsa/ecdsa/secp256k1: 8 one-bit masks + 0xff in quick), truncation and extension of the encoded peer-record envelope in legacy and interop format; structural peer-record cases (other signer, crossed domain/type, garbage peer id / address); boundary shifting: for 5 signed triples (domain, type, payload) per key type (two generic, legacy and interop peer records, with interior bytes chosen so that collisions exist) and every framing mistake (each subset of the three length prefixes missing from the signed bytes; ed25519 all 7, other keys 3), every re-parsing of the mis-framed concatenation into a different triple (boundaries moved by up to 8 bytes beyond each field), in both directions (signed for X presented as Y, signed for Y presented as X). Non-trivial = distinct mutated or mismatching cases (everything except the untouched baselines).",
+    explanation: "Fault enumeration (E3) on recorded artefacts. Oracle: verify is true exactly for the untouched (message, signature, key); payload_and_signing_key succeeds exactly for the signing (domain, type) — in particular never for a triple obtained by moving bytes across the domain/type/payload boundaries; a mutated envelope is rejected at decoding, at verification, or yields exactly the original record content; a record whose peer id is not the signer's is rejected; no panic.",
     assumptions: &["cryptographic primitives are trusted; manipulations are enumerated, not computational", "signatures of all four schemes are deterministic (EdDSA, RFC 6979, PKCS#1 v1.5), so cases replay byte for byte"],
 };
 
@@ -255,6 +255,149 @@ fn env_mut_case(c: &Value) -> Result<&'static str, String> {
     }
 }
 
+// ---------------------------------------------------------------------------------------------
+// boundary shifting: (domain, type, payload) triples whose concatenation collides under a framing
+// mistake. `mask` bit 0/1/2 = the length prefix of domain / type / payload is part of the signed
+// bytes (7 = RFC 0002). For every mask != 7 and every re-parsing Y of ser(mask, X) with Y != X, a
+// signature made for X must not be accepted for Y, and vice versa.
+
+fn ser(mask: u8, d: &[u8], t: &[u8], p: &[u8]) -> Vec<u8> {
+    let mut v = Vec::new();
+    for (bit, x) in [(1u8, d), (2, t), (4, p)] {
+        if mask & bit != 0 {
+            kit::pb::varint(x.len() as u64, &mut v);
+        }
+        v.extend_from_slice(x);
+    }
+    v
+}
+
+fn seg(b: &[u8], framed: bool) -> Option<Vec<u8>> {
+    if !framed {
+        return Some(b.to_vec());
+    }
+    let (l, n) = kit::pb::read_varint(b)?;
+    if n > 2 || (b.len() - n) as u64 != l || kit::pb::varint_vec(l).len() != n {
+        return None;
+    }
+    Some(b[n..].to_vec())
+}
+
+type Triple = (String, Vec<u8>, Vec<u8>);
+
+fn dns_record(kind: usize, total: usize) -> Vec<u8> {
+    // a peer record of exactly `total` bytes: one /dns4 address whose name pads to the length
+    let pid = keys::key(kind, 0).public().to_peer_id().to_bytes();
+    let n = total - (2 + pid.len()) - 2 - 6;
+    let mut addr = vec![0x36, n as u8];
+    addr.extend(std::iter::repeat(b'a').take(n));
+    let r = record_payload(&pid, &[addr]);
+    assert_eq!(r.len(), total);
+    r
+}
+
+fn shift_bases(kind: usize) -> Vec<Triple> {
+    let pid = keys::key(kind, 0).public().to_peer_id().to_bytes();
+    let a: Vec<Vec<u8>> = addrs().iter().map(|a| a.to_vec()).collect();
+    vec![
+        // interior type byte 0x0e = length of "xy" | varint(11) | payload
+        ("libp2p-test".into(), [b"/t/".as_slice(), &[14], b"xy"].concat(), b"payload-c21".to_vec()),
+        // 'r' (114) of "...state-record" = length of "ecord" | varint(108) | 108-byte record
+        (LEGACY_DOMAIN.into(), LEGACY_TYPE.to_vec(), dns_record(kind, 108)),
+        (STD_DOMAIN.into(), STD_TYPE.to_vec(), record_payload(&pid, &a)),
+        ("ab".into(), b"c".to_vec(), b"de".to_vec()),
+        // interior domain byte 0x08 = length of "ain" | varint(4) | "/t/1"
+        ("dom\u{8}ain".into(), b"/t/1".to_vec(), b"payload-c21".to_vec()),
+    ]
+}
+
+fn shift_candidate(base: &Triple, mask: u8, i: usize, j: usize) -> Option<Triple> {
+    let b = ser(mask, base.0.as_bytes(), &base.1, &base.2);
+    if !(i <= j && j <= b.len()) {
+        return None;
+    }
+    let d = seg(&b[..i], mask & 1 != 0)?;
+    let t = seg(&b[i..j], mask & 2 != 0)?;
+    let p = seg(&b[j..], mask & 4 != 0)?;
+    let d = String::from_utf8(d).ok()?;
+    let y = (d, t, p);
+    if y == *base {
+        return None;
+    }
+    Some(y)
+}
+
+fn shift_splits(base: &Triple, mask: u8) -> Vec<(usize, usize)> {
+    let b = ser(mask, base.0.as_bytes(), &base.1, &base.2);
+    let d_end = ser(mask & 1, base.0.as_bytes(), &[], &[]).len();
+    let t_end = ser(mask & 3, base.0.as_bytes(), &base.1, &[]).len();
+    let mut seen = std::collections::BTreeSet::new();
+    let mut out = Vec::new();
+    for i in 0..=(d_end + 8).min(b.len()) {
+        for j in i..=(t_end + 8).min(b.len()) {
+            if let Some(y) = shift_candidate(base, mask, i, j) {
+                if seen.insert(y) {
+                    out.push((i, j));
+                }
+            }
+        }
+    }
+    out
+}
+
+fn shift_case(c: &Value) -> Result<&'static str, String> {
+    let u = |k: &str| c[k].as_u64().unwrap_or(0);
+    let kind = u("k") as usize;
+    let name = keys::KINDS[kind];
+    let bases = shift_bases(kind);
+    let base = bases.get(u("base") as usize).ok_or("bad case")?.clone();
+    let mask = u("mask") as u8;
+    let cand = shift_candidate(&base, mask, u("i") as usize, u("j") as usize).ok_or("bad case: no candidate at this split")?;
+    let (x, y) = if u("dir") == 0 { (base, cand) } else { (cand, base) };
+    let kp = keys::key(kind, 0);
+    // the key holder signs X ...
+    static CACHE: OnceLock<Mutex<HashMap<(usize, Triple), Vec<u8>>>> = OnceLock::new();
+    let m = CACHE.get_or_init(Default::default);
+    let cached = m.lock().unwrap().get(&(kind, x.clone())).cloned();
+    let sig = match cached {
+        Some(s) => s,
+        None => {
+            let e = SignedEnvelope::new(&kp, x.0.clone(), x.1.clone(), x.2.clone()).map_err(|e| format!("sign-fails :: {e}"))?;
+            let enc = e.into_protobuf_encoding();
+            let sig = kit::pb::parse(&enc).and_then(|f| f.into_iter().find_map(|f| if let kit::pb::Field::Bytes(5, s) = f { Some(s) } else { None })).ok_or("harness: no signature field")?;
+            if u("dir") == 0 {
+                m.lock().unwrap().insert((kind, x.clone()), sig.clone());
+            }
+            sig
+        }
+    };
+    // ... and the adversary presents the signature with Y
+    let mut w = W::new().bytes(1, &kp.public().encode_protobuf());
+    if !y.1.is_empty() {
+        w = w.bytes(2, &y.1);
+    }
+    if !y.2.is_empty() {
+        w = w.bytes(3, &y.2);
+    }
+    let forged = w.bytes(5, &sig).finish();
+    let env = match mc::catch(|| SignedEnvelope::from_protobuf_encoding(&forged)).map_err(|p| format!("envelope-decode-panic :: {p}"))? {
+        Ok(e) => e,
+        Err(_) => return Ok("shift-rejected-at-decode"),
+    };
+    let what = format!("{name}: signed for (domain {:?}, type {}, payload {} bytes), presented as (domain {:?}, type {}, payload {} bytes) [framing mask {mask}]", x.0, hex(&x.1), x.2.len(), y.0, hex(&y.1), y.2.len());
+    let r = mc::catch(|| env.payload_and_signing_key(y.0.clone(), &y.1).map(|_| ())).map_err(|p| format!("envelope-read-panic :: {p}"))?;
+    if r.is_ok() {
+        return Err(format!("envelope-accepted-with-shifted-boundary :: {what}"));
+    }
+    for fmt in 0..2u64 {
+        let (d, t) = fmt_consts(fmt);
+        if y.0 == d && y.1 == t && mc::catch(|| from_env(fmt, env.clone())).map_err(|p| format!("record-from-envelope-panic :: {p}"))?.is_ok() {
+            return Err(format!("record-accepted-with-shifted-boundary :: {what}"));
+        }
+    }
+    Ok(if y.1 == LEGACY_TYPE || y.1 == STD_TYPE { "shift-rejected-record-type" } else { "shift-rejected" })
+}
+
 fn rec_case(c: &Value) -> Result<&'static str, String> {
     let kind = c["k"].as_u64().unwrap_or(0) as usize;
     let name = keys::KINDS[kind];
@@ -360,6 +503,7 @@ fn run_case(c: &Value) -> Result<&'static str, String> {
         Some("env_dt") => env_dt_case(c),
         Some("env_mut") => env_mut_case(c),
         Some("rec") => rec_case(c),
+        Some("shift") => shift_case(c),
         _ => Err("bad replay case".into()),
     }
 }
@@ -439,6 +583,18 @@ pub fn run(ctx: &Ctx) -> Outcome {
                     }
                 }
             }
+            // ---- boundary shifting between domain / type / payload
+            let bases = shift_bases(kind);
+            let masks: &[u8] = if kind == 0 { &[0, 1, 2, 3, 4, 5, 6] } else { &[4, 5, 6] };
+            for (bi, base) in bases.iter().enumerate() {
+                for &mask in masks {
+                    for (i, j) in shift_splits(base, mask) {
+                        for dir in 0..2u64 {
+                            en.case("shift", false, json!({"kind":"shift","k":kind,"base":bi,"mask":mask,"i":i,"j":j,"dir":dir}));
+                        }
+                    }
+                }
+            }
             // ---- peer-record structure
             for v in REC_VARIANTS {
                 en.case("rec", v.starts_with("honest") || v == "new-api", json!({"kind":"rec","k":kind,"variant":v}));
@@ -471,6 +627,8 @@ pub fn run(ctx: &Ctx) -> Outcome {
             ("dt_envelope-accepted", 16),
             ("dt_envelope-rejected-type", 1),
             ("dt_envelope-rejected-signature", 1),
+            ("shift_shift-rejected", 100),
+            ("shift_shift-rejected-record-type", 8),
             ("rec_record-accepted", 12),
             ("rec_record-rejected", 40),
             ("env_baseline-accepted", 8),
